@@ -381,6 +381,54 @@ class Adversary:
             return self.enc.encode(hs, huffman=False)
         return self.enc.encode(hs)
 
+    def raw(self, f):
+        """A frame given by its octets' structure (typ, fl, sid, len and what the payload holds): the payload is laid out
+        canonically and then cut (or, for fixed-size frames, zero-extended) to exactly len octets.  No rule is applied."""
+        typ, fl, sid, ln = f['typ'], f['fl'], f['sid'], f['len']
+        padded = bool(fl & 0x8)
+        pad = f.get('pad', -1)
+        if typ == 0:
+            if padded:
+                if ln == 0:
+                    body = b''
+                else:
+                    npad = min(max(pad, 0), ln - 1)
+                    body = bytes([pad & 0xFF]) + payload(f.get('tag', 'B'), ln - 1 - npad) + b'\0' * npad
+            else:
+                body = payload(f.get('tag', 'B'), ln)
+        elif typ in (1, 5):
+            body = bytes([max(pad, 0) & 0xFF]) if padded else b''
+            if typ == 1 and fl & 0x20:
+                pr = f.get('pr') or [16, 0, False]
+                body += wire.prio_bytes(pr[0] - 1, pr[1], pr[2])
+            if typ == 5:
+                body += wire.struct.pack('>I', f.get('pid', 2) & 0xFFFFFFFF)
+            body += b'\x82' * f.get('bl', 0) + b'\0' * f.get('apad', 0)
+            body = body[:ln]
+        elif typ == 9:
+            body = b'\x82' * ln
+        elif typ == 2:
+            body = wire.prio_bytes(f.get('w', 16) - 1, f.get('dep', 0), f.get('excl', False))
+        elif typ == 3:
+            body = wire.struct.pack('>I', u32(f.get('code', 0)))
+        elif typ == 4:
+            body = b''.join(wire.struct.pack('>HI', i & 0xFFFF, u32(v)) for i, v in f.get('s', []))
+        elif typ == 6:
+            body = opaque(f.get('tag', 'A'))
+        elif typ == 7:
+            dbg = f.get('tag', '-')
+            body = wire.struct.pack('>II', f.get('last', 0) & 0x7FFFFFFF, u32(f.get('code', 0))) + (b'' if dbg == '-' else opaque(dbg))
+        elif typ == 8:
+            body = wire.struct.pack('>I', u32(f.get('inc', 1)))
+        elif typ == 10:
+            body = wire.struct.pack('>H', f.get('olen', 0) & 0xFFFF) + text(f.get('org', '')) + text(f.get('fld', ''))
+        else:
+            body = b''
+        if typ not in (0, 1, 5, 9):
+            body = (body + b'\0' * ln)[:ln]
+        assert len(body) == ln, (f, len(body))
+        return wire.raw_frame(typ, fl, sid, body)
+
     def frame(self, f):
         t = f['t']
         if t == 'DATA':
@@ -425,5 +473,5 @@ class Adversary:
         if t == 'UNKNOWN':
             return wire.raw_frame(f.get('typ', 0xFA), 0, f['sid'], b'xyz')
         if t == 'RAW':
-            return bytes.fromhex(f['hex'])
+            return self.raw(f)
         raise ValueError('cannot concretise frame %r' % (f,))
